@@ -177,6 +177,18 @@ func (e *Engine) registerCore() {
 		p.side["permute"] = a[0].(BoolV).T.IsTrue()
 		return nil
 	}
+	I["vrt.PermuteSomeMaps"] = func(p *Path, a []Value, site ssa.Instruction) Value {
+		// up to n designated map ranges iterate in an arbitrary order
+		n := p.constIntArg(a[0], "vrt.PermuteSomeMaps budget")
+		if n > 0 {
+			p.side["permute"] = "one"
+			p.side["permuteBudget"] = n
+			p.side["permuteHere"] = false
+		} else {
+			p.side["permute"] = false
+		}
+		return nil
+	}
 	I["vrt.PoolLeftovers"] = func(p *Path, a []Value, site ssa.Instruction) Value {
 		p.side["poolLeftovers"] = a[0].(BoolV).T.IsTrue()
 		return nil
@@ -184,7 +196,7 @@ func (e *Engine) registerCore() {
 	I["vrt.PermuteOneMap"] = func(p *Path, a []Value, site ssa.Instruction) Value {
 		if a[0].(BoolV).T.IsTrue() {
 			p.side["permute"] = "one"
-			p.side["permuted"] = false
+			p.side["permuteBudget"] = 1
 			p.side["permuteHere"] = false
 		} else {
 			p.side["permute"] = false
